@@ -896,6 +896,28 @@ class RestartAndStoredEnergies:
         if not eps["chain"][1] or np.abs(eps["chain"][0] - eps["pccg alone"][0]).max() > 1e-3 or "pccg" not in eps["chain"][2]:  # eigenvalues are first order in the residual
             bad.append(dict(case="LiH: run(); opt = {'sd': 3, 'pccg': 300}; converge_empty_bands(Nempty=2)", converged=eps["chain"][1], minimisers_run=eps["chain"][2],
                             eigenvalue_distance_from_pccg_alone=float(np.abs(eps["chain"][0] - eps["pccg alone"][0]).max())))
+        # (d) empty bands of open-shell systems (a spin channel that stores a zero-occupation orbital): the converged band minimisation is a local minimum of
+        # the band energy it reports - no small perturbation of the converged unoccupied orbitals, in either direction, lowers it
+        from eminus.band_minimizer import scf_step_unocc
+
+        rng = np.random.default_rng(7)
+        for sym in ("H", "Li"):
+            at = Atoms(sym, [[0.0, 0.0, 0.0]], ecut=3, a=6, unrestricted=True)
+            scf = SCF(at, etol=1e-10, opt={"pccg": 150}, verbose="critical")
+            scf.run()
+            scf.opt = {"pccg": 400}
+            scf.converge_empty_bands(Nempty=1)
+            Z0 = [np.asarray(z).copy() for z in scf.Z]
+            e0 = float(scf_step_unocc(scf, [z.copy() for z in Z0]))
+            lowest = 0.0
+            for _ in range(6):
+                d = [(rng.standard_normal(z.shape) + 1j * rng.standard_normal(z.shape)) for z in Z0]
+                d = [1e-3 * x * np.linalg.norm(z) / np.linalg.norm(x) for x, z in zip(d, Z0)]
+                for sgn in (1.0, -1.0):
+                    lowest = min(lowest, float(scf_step_unocc(scf, [z + sgn * x for z, x in zip(Z0, d)])) - e0)
+            if not scf.is_converged or lowest < -1e-7:
+                bad.append(dict(case=f"{sym} atom, unrestricted: run(); converge_empty_bands(Nempty=1); perturbation of relative size 1e-3", converged=bool(scf.is_converged),
+                                largest_lowering_of_the_band_energy=lowest))
         return bad
 
     def __call__(self, ob, tier, seed):
